@@ -285,6 +285,68 @@ var constructorPhase = map[string]string{
 	"v2/storage/deferred.NewDeferredCarWriterForStream": "constructor",
 }
 
+// ctorPhase returns the constructor-phase table extended, for this tree, with
+// every unexported function or method of the analysed packages all of whose
+// (at least one) callers are themselves constructor-phase: a helper extracted from
+// a constructor still works on an object nobody else can see yet.
+var ctorCache struct {
+	c *Ctx
+	m map[string]string
+}
+
+func ctorPhase(c *Ctx) map[string]string {
+	if ctorCache.c == c && ctorCache.m != nil {
+		return ctorCache.m
+	}
+	m := map[string]string{}
+	for k, v := range constructorPhase {
+		m[k] = v
+	}
+	var funcs []*ssa.Function
+	for _, fn := range c.RepoFuncs() {
+		if fn.Pkg == nil || fn.Parent() != nil {
+			continue
+		}
+		for _, lp := range lockPkgs {
+			if fn.Pkg.Pkg.Path() == lp {
+				funcs = append(funcs, fn)
+			}
+		}
+	}
+	top := func(fn *ssa.Function) *ssa.Function {
+		for fn.Parent() != nil {
+			fn = fn.Parent()
+		}
+		return fn
+	}
+	for changed := true; changed; {
+		changed = false
+		for _, fn := range funcs {
+			k := fnKey(fn)
+			if _, ok := m[k]; ok || isExportedEntry(fn) {
+				continue
+			}
+			callers, all := 0, true
+			for _, g := range c.RepoFuncs() {
+				eachInstr(g, func(in ssa.Instruction) {
+					if ci, ok := in.(ssa.CallInstruction); ok && ci.Common().StaticCallee() == fn {
+						callers++
+						if _, ok := m[fnKey(top(g))]; !ok {
+							all = false
+						}
+					}
+				})
+			}
+			if callers > 0 && all {
+				m[k] = "inferred: only called from constructor-phase functions"
+				changed = true
+			}
+		}
+	}
+	ctorCache.c, ctorCache.m = c, m
+	return m
+}
+
 // named exemptions (one symbol each).
 var lockExemptFuncs = map[string]string{
 	"v2/blockstore.ReadOnly.Index":                "documented as direct, unsynchronised access to the index ('You should never add records on your own there')",
@@ -652,7 +714,7 @@ func (la *lockAnalysis) accesses() []lockAccess {
 	var out []lockAccess
 	for _, fn := range la.funcs {
 		top := fnKey(la.topLevel(fn))
-		if _, ok := constructorPhase[top]; ok {
+		if _, ok := ctorPhase(la.c)[top]; ok {
 			continue
 		}
 		if _, ok := lockExemptFuncs[top]; ok {
